@@ -8,6 +8,7 @@ let () =
     | "semver" -> D_semver.eval, D_semver.oracle
     | "ranges" | "rangeord" | "rangeq" -> D_ranges.eval, D_ranges.oracle
     | "terms" | "bitset" -> D_terms.eval, D_terms.oracle
+    | "offline" -> D_offline.eval, D_offline.oracle
     | _ -> failwith "unknown domain" in
   let n = ref 0 in
   (try
